@@ -71,8 +71,124 @@ def shifted(util, shift, bump):
     return out
 
 
+NESTED_FNS = ('nested', 'lognested', 'nested_mev_mu', 'lognested_mev_mu', 'lnG_nested', 'lnG_nested_mu', 'gen')
+CNL_FNS = ('cnl', 'logcnl', 'cnlmu', 'logcnlmu', 'lnG_cnl', 'lnG_cnl_mu')
+
+
+class State:
+    """the objects a user keeps between calls: ONE util dict, ONE availability dict, ONE nests object (or tuple),
+    ONE ln G_i dict, ONE correction dict; updated in place by the history"""
+
+    def __init__(self, c, call, syntax):
+        self.util = B.mk_dict(c.get('util') or [])
+        self.av = B.mk_dict(c.get('av'))
+        self.lg = B.mk_dict(call.get('log_gi', c.get('log_gi')))
+        self.corr = B.mk_dict(call.get('correction', c.get('correction')))
+        self.mu = B.mk_pv(call.get('mu', c.get('mu')))
+        cc = {'nests': call.get('nests', c.get('nests')), 'choice_set': call.get('choice_set', c.get('choice_set')),
+              'names': call.get('names', c.get('names')), 'prev_pos': call.get('prev_pos', c.get('prev_pos'))}
+        self.cc, self.syntax = cc, syntax
+        self._n = self._c = None
+
+    def nests_n(self):
+        if self._n is None:
+            self._n = B.nested_args(self.cc, self.syntax)
+        return self._n
+
+    def nests_c(self):
+        if self._c is None:
+            self._c = B.cnl_args(self.cc, self.syntax)
+        return self._c
+
+    def apply(self, op):
+        k = op['op']
+        if k == 'shift_new':        # a NEW utility dict (scenario): every utility plus a constant
+            self.util = {a: v + op['c'] for a, v in self.util.items()}
+        elif k == 'shift_inplace':  # the SAME dict, every entry replaced
+            for a in list(self.util):
+                self.util[a] = self.util[a] + op['c']
+        elif k == 'bump_inplace':   # what-if scenario on one alternative, same dict
+            self.util[int(op['alt'])] = self.util[int(op['alt'])] + op['h']
+        elif k == 'bump_new':
+            self.util = {a: (v + op['h'] if a == int(op['alt']) else v) for a, v in self.util.items()}
+        elif k == 'av_inplace':
+            if self.av is not None:
+                self.av[int(op['alt'])] = op['value']
+        elif k == 'av_new':
+            if self.av is not None:
+                self.av = {a: (op['value'] if a == int(op['alt']) else v) for a, v in self.av.items()}
+        else:
+            raise ValueError(f'unknown op {k}')
+
+    def values(self, fn, db, betas, py=False):
+        util, av = self.util, self.av
+        out = {}
+        if fn == 'gen':
+            return {'G': evaluate(models.get_mev_generating_for_nested(util, av, self.nests_n()), db, betas, py)}
+        if fn.startswith('lnG'):
+            d = {'lnG_nested': lambda: models.get_mev_for_nested(util, av, self.nests_n()),
+                 'lnG_nested_mu': lambda: models.get_mev_for_nested_mu(util, av, self.nests_n(), self.mu),
+                 'lnG_cnl': lambda: models.get_mev_for_cross_nested(util, av, self.nests_c()),
+                 'lnG_cnl_mu': lambda: models.get_mev_for_cross_nested_mu(util, av, self.nests_c(), self.mu)}[fn]()
+            for k, e in d.items():
+                try:
+                    out[str(k)] = evaluate(e, db, betas, py)
+                except Exception as ex:  # noqa
+                    out[str(k)] = {'exc': f'{type(ex).__name__}: {str(ex)[:120]}'}
+            return out
+        for i in util:
+            try:
+                if fn in ('logit', 'loglogit'):
+                    e = getattr(models, fn)(util, av, i)
+                elif fn in ('mev', 'logmev'):
+                    e = getattr(models, fn)(util, self.lg, av, i)
+                elif fn == 'mev_es':
+                    e = models.mev_endogenous_sampling(util, self.lg, av, self.corr, i)
+                elif fn == 'logmev_es':
+                    e = models.logmev_endogenous_sampling(util, self.lg, av, self.corr, i)
+                elif fn in ('nested', 'lognested'):
+                    e = getattr(models, fn)(util, av, self.nests_n(), i)
+                elif fn in ('nested_mev_mu', 'lognested_mev_mu'):
+                    e = getattr(models, fn)(util, av, self.nests_n(), i, self.mu)
+                elif fn in ('cnl', 'logcnl'):
+                    e = getattr(models, fn)(util, av, self.nests_c(), i)
+                elif fn in ('cnlmu', 'logcnlmu'):
+                    e = getattr(models, fn)(util, av, self.nests_c(), i, self.mu)
+                else:
+                    raise ValueError(f'unknown fn {fn}')
+                out[str(i)] = evaluate(e, db, betas, py)
+            except Exception as ex:  # noqa
+                out[str(i)] = {'exc': f'{type(ex).__name__}: {str(ex)[:120]}'}
+        return out
+
+
+def run_history(c, call, db, betas):
+    """a history of calls on the same objects; every evaluation is compared (by the harness) with the one obtained
+    from freshly built objects brought to the same state without any intermediate call"""
+    syntax = call.get('syntax', 'objects')
+    fresh_syntax = call.get('fresh_syntax', syntax)
+    st = State(c, call, syntax)
+    done = []
+    evals = []
+    for op in call['steps']:
+        if op['op'] == 'eval':
+            hist = st.values(op['fn'], db, betas)
+            fresh_state = State(c, call, fresh_syntax)
+            for o in done:
+                fresh_state.apply(o)
+            fresh = fresh_state.values(op.get('fresh_fn', op['fn']), db, betas)
+            avs = {str(k): evaluate(v, db, betas) for k, v in (st.av or {k: 1 for k in st.util}).items()}
+            evals.append({'fn': op['fn'], 'after': list(done), 'hist': hist, 'fresh': fresh, 'av': avs})
+        else:
+            st.apply(op)
+            done.append(op)
+    return {'evals': evals}
+
+
 def run_call(c, call, db, betas):
     fn = call['fn']
+    if fn == 'history':
+        return run_history(c, call, db, betas)
     util = shifted(B.mk_dict(c.get('util') or []), call.get('shift', 0), call.get('bump'))
     av = B.mk_dict(c.get('av'))
     want_trees = call.get('trees')
